@@ -2,7 +2,9 @@
 #[macro_use]
 extern crate rdp;
 
+pub mod gen;
 pub mod io;
+pub mod mem;
 pub mod props;
 pub mod util;
 
@@ -25,6 +27,8 @@ pub fn run_property(id: &str, tier: Tier, replay: Option<(String, Value)>) -> i3
         }
     }
     dispatch! {
+        "C03" => c03,
+        "C04" => c04,
         "C08" => c08,
         "C09" => c09,
         "C13" => c13,
